@@ -264,9 +264,15 @@ func (tr *FnTrans) purityOf(fn *ssa.Function, depth int) []string {
 				if spec := tr.eng.lookupSpec(name, cc); spec != nil && (spec.Pure || (spec.ModSet && len(spec.Modifies) == 0)) {
 					continue
 				} else if spec != nil && spec.ModSet {
-					// writes only through arguments: fine when those point into memory allocated here
+					// writes only through arguments: fine when those point into memory allocated here,
+					// or when the written location is itself named by this function's modifies clause
 					ok := true
 					for _, m := range spec.Modifies {
+						if tr.modAllowed != nil {
+							if p := translateModifies(m.E, cc); p != "" && contains(tr.modAllowed, p) {
+								continue
+							}
+						}
 						root := m.E
 						for root != nil && root.Op != "id" {
 							if len(root.A) == 0 {
@@ -312,8 +318,12 @@ func (tr *FnTrans) frameChecks() {
 	if tr.c == nil {
 		return
 	}
-	if tr.c.Pure {
-		tr.syntactic("frame:pure", "function declared pure writes no caller-visible memory", tr.purityViolations())
+	if tr.c.Pure || (tr.c.ModSet && len(tr.c.Modifies) == 0) {
+		if tr.c.FrameTrusted != "" {
+			tr.usedSpecs["frame condition of "+tr.name+" trusted, not checked: "+tr.c.FrameTrusted] = true
+		} else {
+			tr.syntactic("frame:pure", "function declared pure / modifies nothing writes no caller-visible memory", tr.purityViolations())
+		}
 	}
 	if tr.c.ModSet && len(tr.c.Modifies) > 0 && !tr.c.Assumed {
 		var allowed []string
@@ -349,6 +359,20 @@ func (tr *FnTrans) frameChecks() {
 						continue
 					case *ssa.Parameter:
 						path = x.Name() + path
+					case *ssa.Phi:
+						// the parameter itself or an object allocated here
+						name := ""
+						for _, e := range x.Edges {
+							if p, ok := e.(*ssa.Parameter); ok {
+								name = p.Name()
+							} else if !localRoot(e, 0) {
+								okShape = false
+							}
+						}
+						if name == "" {
+							okShape = false
+						}
+						path = name + path
 					default:
 						okShape = false
 					}
@@ -646,6 +670,19 @@ func lvalPath(v ssa.Value) string {
 			continue
 		case *ssa.Parameter:
 			return x.Name() + path
+		case *ssa.Phi:
+			name := ""
+			for _, e := range x.Edges {
+				if p, ok := e.(*ssa.Parameter); ok {
+					name = p.Name()
+				} else if !localRoot(e, 0) {
+					return ""
+				}
+			}
+			if name == "" {
+				return ""
+			}
+			return name + path
 		}
 		return ""
 	}
@@ -679,4 +716,40 @@ func globalsIn(x *Expr, pkg *ssa.Package) []string {
 	}
 	walk(x)
 	return out
+}
+
+// translateModifies rewrites a callee modifies expression param.f.g into the caller's terms when the
+// actual argument is one of the caller's parameters or the address of a field of one.
+func translateModifies(x *Expr, cc *ssa.CallCommon) string {
+	var fields []string
+	cur := x
+	for cur != nil && cur.Op == "sel" {
+		fields = append([]string{cur.S}, fields...)
+		cur = cur.A[0]
+	}
+	if cur == nil || cur.Op != "id" {
+		return ""
+	}
+	arg, _ := pointeeArg(cc, cur.S)
+	if arg == nil {
+		return ""
+	}
+	base := ""
+	v := arg
+	for {
+		switch y := v.(type) {
+		case *ssa.Parameter:
+			base = y.Name() + base
+			if len(fields) == 0 {
+				return base
+			}
+			return base + "." + strings.Join(fields, ".")
+		case *ssa.FieldAddr:
+			stt := y.X.Type().Underlying().(*types.Pointer).Elem().Underlying().(*types.Struct)
+			base = "." + stt.Field(y.Field).Name() + base
+			v = y.X
+			continue
+		}
+		return ""
+	}
 }
